@@ -188,3 +188,27 @@ def _first_json_diff(a, b, path=""):
                 return d
         return None
     return None if a == b else f"{path}: {a!r} vs {b!r}"
+
+
+def explore_vs_serial(argv_fn, wd, bound=1, workers=2, compare_reports=False, bytes_capacity=None, max_failures=2):
+    """argv_fn(outdir, cores) -> argv. Runs the one-core reference, then every schedule with <= bound deviations of the
+    `workers`-core run on the virtual layer; returns (executions, [(schedule, failure text)])."""
+    from . import explore, vmp
+
+    refd, rund = os.path.join(wd, "mc-ref"), os.path.join(wd, "mc-run")
+    for x in (refd, rund):
+        os.makedirs(x, exist_ok=True)
+    ref = run_serial(argv_fn(refd, 1), refd, json_name="report.json")
+    if ref.exit != 0:
+        return 0, [((), f"one-core run failed: {ref.exit} {ref.errors[:1]} {ref.exc}")]
+
+    def run_exec(prefix):
+        s = run_virtual(argv_fn(rund, workers), rund, prefix=prefix, bytes_capacity=bytes_capacity, json_name="report.json")
+        if s.divergence:
+            raise vmp.HarnessNondeterminism(s.divergence)
+        if not compare_reports:
+            s.json, s.report = ref.json, ref.report
+        return s.points, s.outcome_key(), diff_summaries(ref, s)
+
+    r = explore.explore(run_exec, "D", bound=bound)
+    return r.executions, [(tuple(ch), fail) for _, fail, ch in r.failures[:max_failures]]
